@@ -68,6 +68,8 @@ class Selection(tsdb.Records):
         """
         self.fields: List[tsdb.Field] = []
         self._field_index: tsdb.FieldIndex = {}
+        # key name -> qualified name of the first joined key column so named
+        self._key_index: Dict[str, str] = {}
         self.data: tsdb.Records = []
         self.projection = None
         if record_class is None:
@@ -505,7 +507,7 @@ def _join(selection: Selection,
         on: List[str] = []
         if selection is not None:
             on = [f.name for f in fields
-                  if f.is_key and f.name in selection._field_index]
+                  if f.is_key and f.name in selection._key_index]
         fields = [f for f in fields if f.name not in on]
         cols = [f.name for f in fields]
 
@@ -518,7 +520,9 @@ def _join(selection: Selection,
             right.setdefault(tuple(keys), []).append(tuple(row))
 
         rfill = tuple([None] * len(fields))
-        for keys, lrow in zip(selection.select(*on, cast=True), selection):
+        left_on = [selection._key_index[name] for name in on]
+        for keys, lrow in zip(selection.select(*left_on, cast=True),
+                              selection):
             keys = tuple(keys)
             if how == 'left' or keys in right:
                 for rrow in right.get(keys, [rfill]):
@@ -538,11 +542,14 @@ def _merge_fields(selection: Selection,
         selection.fields.append(field)
         if field.name not in selection._field_index:
             selection._field_index[field.name] = i
-        selection._field_index[relationname + '.' + field.name] = i
+        qname = relationname + '.' + field.name
+        selection._field_index[qname] = i
+        if field.is_key and field.name not in selection._key_index:
+            selection._key_index[field.name] = qname
     # also add qualified names for 'on' fields in case the joins
     # happen in a strange order
     for name in on:
-        i = selection._field_index[name]
+        i = selection._field_index[selection._key_index[name]]
         selection._field_index[relationname + '.' + name] = i
     selection.joined.add(relationname)
 
